@@ -1,5 +1,7 @@
 mod file_reference;
 mod string_reference;
+#[cfg(feature = "verif")]
+mod verif;
 
 use hashbrown::{HashMap, HashSet};
 
